@@ -26,9 +26,9 @@ RULE = ("CLI invocations (JSON pairs biased to mappings with many unmatched keys
         "run; purity snapshots on every library-level case; non-trivial = the two documents differ; distinct = distinct argv+documents")
 ASSUMPTIONS = ["stderr is not compared (progress bars carry timings)",
                "snapshot = per node: class, scalar / child identity list, parent identity, option flags, quoted flag"]
-MINIMUMS = {"quick": {"cross_seed_comparisons": 400, "within_process_repeats": 1500, "purity_snapshots": 800,
+MINIMUMS = {"quick": {"comparisons_with_a_diff_result_as_input": 800, "cross_seed_comparisons": 400, "within_process_repeats": 1500, "purity_snapshots": 800,
                       "subprocess_comparisons": 8, "colour_printers_in_one_process": 500},
-            "thorough": {"cross_seed_comparisons": 10000, "within_process_repeats": 20000, "purity_snapshots": 12000,
+            "thorough": {"comparisons_with_a_diff_result_as_input": 12000, "cross_seed_comparisons": 10000, "within_process_repeats": 20000, "purity_snapshots": 12000,
                          "subprocess_comparisons": 100, "colour_printers_in_one_process": 3000}}
 
 MODES = [[], ["-e"], ["-d"], ["-j"], ["--color"], ["--format", "yaml"], ["--format", "json5"], ["-jl"], ["--html"]]
@@ -286,6 +286,29 @@ def check(case, ctx):
                     ctx.count("render_raised_left_to_C13")
             if snapshot(ta) != sa or snapshot(tb) != sb:
                 diags.append({"kind": "rendering-altered-an-input-tree"})
+            # history: the result of a comparison (an annotated copy of the first tree) is itself handed to another comparison.
+            # It is an input like any other: the outcome must be what the plain first tree gives against the same document, and
+            # the result tree must come out of it unaltered (its own annotations included)
+            try:
+                fresh_a, fresh_b = families.build(case)
+                an = annotations(d)
+                for which, third in (("second", fresh_b), ("first-again", fresh_a)):
+                    d2 = d.diff(third)
+                    ref = ta.diff(third)
+                    o2, oref = _render_or_cost(case["family"], d2), _render_or_cost(case["family"], ref)
+                    if ctx is not None:
+                        ctx.count("comparisons_with_a_diff_result_as_input")
+                    if o2 != oref:
+                        diags.append({"kind": "diff-result-as-input-gives-another-outcome", "against": which,
+                                      "from_result": repr(o2)[:300], "from_plain_tree": repr(oref)[:300]})
+                        break
+                    if annotations(d) != an:
+                        diags.append({"kind": "comparison-altered-the-diff-result-it-was-given", "against": which})
+                        break
+            except core.Budget:
+                raise
+            except Exception as ex:  # noqa
+                diags.append(core.exc_diag("diff-result-as-input-raised", ex))
             if ctx is not None:
                 ctx.count("purity_snapshots")
                 ctx.count("purity_nodes", len(sa) + len(sb))
@@ -331,6 +354,36 @@ def check(case, ctx):
     except Exception as ex:  # noqa
         diags.append(core.exc_diag("exception", ex))
     return diags
+
+
+def annotations(d):
+    """Edit annotations of a diff result, per node in dfs order (identity-free)."""
+    out = []
+    for n in d.dfs():
+        out.append((type(n).__name__, bool(getattr(n, "removed", False)), len(getattr(n, "inserted", ()) or ()),
+                    getattr(n, "matched_to", None) is not None, len(getattr(n, "edit_list", ()) or ()),
+                    type(getattr(n, "edit", None)).__name__))
+    try:
+        out.append(("cost", d.edited_cost()))
+    except Exception as ex:  # noqa
+        out.append(("cost-raised", type(ex).__name__))
+    return out
+
+
+def _render_or_cost(family, d):
+    import io
+    import graphtage.printer as gp
+    from gv.props.c05 import _formatter
+    cost = d.edited_cost()
+    status = any(any(e.has_non_zero_cost() for e in n.edit_list) for n in d.dfs())
+    try:
+        out = io.StringIO()
+        p = gp.Printer(out_stream=out, ansi_color=False, quiet=True)
+        with p:
+            _formatter(family).print(p, d)
+        return (cost, status, out.getvalue())
+    except Exception as ex:  # noqa   (rendering errors are C13's)
+        return (cost, status, "render raised " + type(ex).__name__)
 
 
 def finalize(results):
